@@ -80,14 +80,22 @@ def classify(bad, texts, wd):
                     while q < len(ln) and ln[q] in "=/":
                         q += 1
                     vs.insert(0, "\n".join(lines[:li] + [ln[:q] + " ( " + ln[q:] + " )"] + lines[li + 1:]) + "\x00K3")
+            # K4: a '$$' socket name where the PEG wants a type name (or '$' where it wants a group name): a name is an id either
+            # way in the ABNF; the variant with the other prefix at that one place is derivable and accepted
+            p_ = t.find("$$")
+            while p_ >= 0:
+                vs.insert(0, t[:p_] + "$" + t[p_ + 2:] + "\x00K4")
+                p_ = t.find("$$", p_ + 2)
         else:
             continue
         for s in vs[:200]:
             cand.append(s)
             owner.append(i)
     k3 = [s.endswith("\x00K3") for s in cand]
-    cand = [s[:-3] if f else s for s, f in zip(cand, k3)]
+    k4 = [s.endswith("\x00K4") for s in cand]
+    cand = [s[:-3] if (f or g) else s for s, f, g in zip(cand, k3, k4)]
     k3set = {s for s, f in zip(cand, k3) if f}
+    k4set = {s for s, f in zip(cand, k4) if f}
     if not cand:
         return known
     ops = [{"id": k, "op": "parse", "ast": True, "cddl": s} for k, s in enumerate(cand)]
@@ -117,7 +125,7 @@ def classify(bad, texts, wd):
             if verd[i] == "bad:accepted-not-derivable":
                 known.setdefault(i, "C03-implicit-whitespace")
             else:
-                known.setdefault(i, "C03-group-rule-occurrence" if s in k3set else "C03-peg-longest-match")
+                known.setdefault(i, "C03-group-rule-occurrence" if s in k3set else "C03-socket-generics" if s in k4set else "C03-peg-longest-match")
     for i, v in bad:
         if i not in known and v == "bad:rejected-derivable":
             body = texts[i]
